@@ -11,6 +11,9 @@ SPAN_MIN = Fraction(1, 10**9)
 SPAN_MAX = 10**12
 
 
+SMALL_BOX = [False]
+
+
 def domain_vals(sink, val, orient):
     """symbolic non-degenerate domain inside the property's box; orient +1 ascending, -1 descending"""
     lo = val("lo", -MAG, MAG)
@@ -27,6 +30,10 @@ def domain_vals(sink, val, orient):
         e.assume(span * 10**6 >= -lo)
         # where a counter-example exists in this robust sub-box, report that one (floats replay it faithfully)
         lo8, hi8 = lo * 8, hi * 8
+        if SMALL_BOX[0]:
+            # history configurations: a smaller box (four decades of span) keeps the number of step paths down
+            for c in (span >= Fraction(1, 2), span <= 5000, lo >= -5000, hi <= 5000):
+                e.assume(c)
         e.model_hints = [span >= Fraction(1, 2), span <= 5000, lo >= -5000, hi <= 5000, lo8 == lo8.__floor__(), hi8 == hi8.__floor__()]
     return (lo, hi) if orient > 0 else (hi, lo)
 
@@ -50,10 +57,29 @@ def ticks_props(sink, cfg, val, num):
     from labella.scale import LinearScale
 
     m = cfg["m"]
+    SMALL_BOX[0] = bool(cfg.get("hist"))
     d0, d1 = domain_vals(sink, val, cfg["orient"])
+    SMALL_BOX[0] = False
     s = LinearScale().domain([d0, d1])
     from labella import scale as SC
 
+    hist = cfg.get("hist")
+    if hist:
+        # history on the same scale object before the ticks are asked for: the ticks must be those of the domain the scale
+        # reports NOW, whatever was asked of it before
+        s.ticks(m)
+        s.tickFormat(m)
+        if hist == "ticks-nice":
+            s.nice(m)
+        elif hist == "ticks-copy":
+            s.range([5, 9])
+            s.clamp(True)
+            s2 = s.copy()
+            s.domain([d0 + 1000, d1 + 1000])
+            s.ticks(m)
+            s = s2
+        dd = s.domain()
+        d0, d1 = dd[0], dd[1]
     rng = SC.d3_scale_linearTickRange(s.domain(), m)
     step = rng[2]
     T = list(s.ticks(m))
@@ -158,6 +184,10 @@ def configs_for(ms, kind):
     for m in ms:
         for o in (1, -1):
             out.append(dict(name="%s-m%s-%s" % (kind, m, "asc" if o > 0 else "desc"), kind=kind, m=m, orient=o, weight=(m or 10), shards=4 if (m or 10) >= 5 else 1))
+    if kind == "ticks":
+        # histories: ticks()/tickFormat() asked before nice() widens the domain, or before the scale is copied and the original re-domained
+        for m, o, h in ((5, 1, "ticks-nice"), (2, -1, "ticks-nice"), (2, 1, "ticks-copy"), (5, -1, "ticks-copy")):
+            out.append(dict(name="ticks-hist-%s-m%s-%s" % (h, m, "asc" if o > 0 else "desc"), kind="ticks", m=m, orient=o, hist=h, weight=2 * (m or 10), shards=4))  # domain box: span in [0.5, 5000], end points in [-5000, 5000]
     return out
 
 
